@@ -99,6 +99,13 @@ def _call_value(self, callee, pos, kw, node, fr, star=None, dstar=None):
         ci = self.class_of(ca.args[0])
         if ci is not None:
             return self.construct(ci, pos, kw, node, fr, star, dstar)
+    if ca.kind == 'attr' and isinstance(ca.args[1], str) and not isinstance(getattr(node, 'func', None), ast.Attribute):
+        # the value of getattr(obj, 'name') called: obj.name(...)
+        fake = ast.Call(func=ast.Attribute(value=getattr(node, 'func', node), attr=ca.args[1], ctx=ast.Load()),
+                        args=getattr(node, 'args', []), keywords=getattr(node, 'keywords', []))
+        ast.copy_location(fake, node)
+        ast.copy_location(fake.func, node)
+        return self.method_call(ca.args[0], ca.args[1], pos, kw, fake, fr, star, dstar)
     if ca.kind == 'closure':
         cl = self.closures.get(ca.key)
         if cl is not None:
@@ -183,7 +190,8 @@ def call_package(self, fi, pos, kw, self_term, self_cls, node, fr, star=None, ds
     bound = self.bind_args(fi, pos, kw, fr, skip_first=is_method)
     ev = self.emit('call', node, fr, name=fi.short, resolved=fi, args=pos, kwargs=kw, bound=bound,
                    recv=self_term, external=False, star=star, dstar=dstar)
-    depth = fr.depth + 1
+    # a helper that is not in the baseline list is part of the function it was extracted from: it does not use up depth
+    depth = fr.depth + (1 if fi.short in BASELINE_FUNCS else 0)
     recursive = any(f.fi is fi for f in self.frames)
     too_deep = depth > self.max_depth and (fi.short in BASELINE_FUNCS or depth > self.max_depth + 3)
     if too_deep or recursive or fi.short in self.no_inline or star is not None or dstar is not None:
@@ -194,6 +202,19 @@ def call_package(self, fi, pos, kw, self_term, self_cls, node, fr, star=None, ds
             if all(p in bound for p in formals):
                 args = ([self_term] if (is_method and self_term is not None) else []) + [bound[p] for p in formals]
                 res = T.mk_call(fi.short, args, [])
+                if ev is not None:
+                    ev.data['ret'] = res
+                return res
+        if star is None and dstar is None and not fi.node.args.vararg and fi.node.args.kwarg:
+            # **kwargs in the signature: named formals in declaration order, the extra keywords sorted
+            formals = fi.all_params()[1 if is_method else 0:]
+            extra = bound.get(fi.node.args.kwarg.arg)
+            ea = extra.single_atom() if extra is not None else None
+            if all(p in bound for p in formals) and ea is not None and ea.kind == 'dict' and all(
+                    k_.single_atom() is not None and k_.single_atom().kind == 'str' for k_, _ in ea.args):
+                args2 = ([self_term] if (is_method and self_term is not None) else []) + [bound[p] for p in formals]
+                kw2 = sorted(((k_.single_atom().args[0], v_) for k_, v_ in ea.args), key=lambda kv: kv[0])
+                res = T.mk_call(fi.short, args2, kw2)
                 if ev is not None:
                     ev.data['ret'] = res
                 return res
@@ -617,6 +638,7 @@ def call_builtin(self, name, pos, kw, node, fr):
     if name == 'setattr' and len(pos) == 3:
         na = pos[1].single_atom()
         key = na.args[0] if (na is not None and na.kind == 'str') else '<dynamic>'
+        self.heap_base[pos[0].key] = pos[0]
         self.heap[(pos[0].key, key)] = pos[2]
         self.emit('store', node, fr, target='attr', base=pos[0], name=key, value=pos[2], aug=None, rhs=None,
                   old=None, base_node=node.args[0], via='setattr', name_term=pos[1])
